@@ -290,6 +290,26 @@ def check_loglik(ctx, c):
         ctx.fail({"what": "kernel_loglikelihood-offset", "norm": name}, f"kernel {kern} + const {add} != {got}")
     if not abs(norm.likelihood(x) - math.exp(got)) <= 1e-9 * math.exp(got) + 1e-300:
         ctx.fail({"what": "likelihood!=exp(loglik)", "norm": name}, "likelihood mismatch")
+    # missing (NaN) and out-of-range entries are documented to be treated as NaN, i.e. ignored: the likelihood of the dirty sample
+    # is the likelihood of its valid part
+    lo, hi = onorm.x_range(name, p)
+    dirty = list(x)
+    bad = [math.nan, math.nan]
+    if lo > -math.inf:
+        bad += [lo - 1.0, lo - 1e-3]
+    if hi < math.inf:
+        bad += [hi + 1.0, hi + 1e-3]
+    for b in bad:
+        dirty.insert(int(rng.integers(0, len(dirty) + 1)), b)
+    dirty = np.array(dirty)
+    with warnings.catch_warnings():
+        warnings.simplefilter("ignore")
+        with np.errstate(all="ignore"):
+            got_d, kern_d = norm.loglikelihood(dirty), norm.kernel_loglikelihood(dirty)
+    ctx.event("loglik_with_invalid_entries_compared")
+    if not (abs(got_d - got) <= 1e-9 * max(1.0, abs(got)) and abs(kern_d - kern) <= 1e-9 * max(1.0, abs(kern))):
+        ctx.fail({"what": "loglikelihood-counts-invalid-entries", "norm": name},
+                 f"{name}{p}: {len(bad)} NaN/out-of-range entries added: loglikelihood {got_d!r} (clean {got!r}), kernel {kern_d!r} (clean {kern!r})")
 
 
 def check_fit(ctx, c):
@@ -390,8 +410,13 @@ def check_pipeline(ctx, c):
         if cls == "Field":
             obj = gs.field.Field(model, **kw)
             given = rng.normal(0.5, 0.1, size=shape)
-            out = obj(pos, field=given.copy(), mesh_type=mt)
+            held = given.copy()  # the array the user hands over and keeps: the documented relation is stated for *it*
+            out = obj(pos, field=held, mesh_type=mt)
             raw = obj(pos, field=given.copy(), mesh_type=mt, post_process=False, store="raw")
+            if not np.array_equal(np.asarray(raw, dtype=float).reshape(held.shape), held):
+                ctx.fail({"what": "raw-field-the-user-holds!=raw-field-processed", "cls": cls, "norm": name},
+                         f"Field(pos, field=arr): arr differs afterwards from the raw field by {common.maxabs(np.asarray(raw).reshape(held.shape) - held):.3e}")
+                return
         elif cls in ("SRF", "SRFvec"):
             gen = dict(generator="VectorField", mode_no=32) if vec else dict(mode_no=32)
             if c["mean"] == "none":
